@@ -34,7 +34,7 @@ META = {
             'executor worker runs retries and a client thread attaches a second callback pair and blocks in result(); scheduling '
             'points at every virtual lock/event operation and every source line of the completion/timeout/callback methods of '
             'ResponseFuture; quick: all non-preemptive schedules of every configuration and all schedules with <= 1 preemption of three key configurations; '
-            'thorough: <= 1 preemption for every configuration of up to 4 threads, <= 2 for those of up to 3 threads.  Oracle: each observer '
+            'thorough: <= 1 preemption for every configuration of up to 4 threads, <= 2 for the two-reactor configurations.  Oracle: each observer '
             'invoked exactly once, never both kinds, all observers and result() agree, no deadlock, outcome exists.',
     'note': 'History layer: single-threaded histories (handler atomicity).  Schedule layer: line-granular preemption inside the '
             'ResponseFuture methods named in vt/c14sched.py; connection/pool code runs between scheduling points at its lock operations only.  '
@@ -290,9 +290,10 @@ def run(ctx):
         return 2 + bool(c['timer']) + bool(c['late']) + bool('overloaded' in c['kinds'] or c.get('spec_in_race'))
     if ctx.thorough:
         # one preemption anywhere for every configuration of up to 4 threads (5-thread ones: non-preemptive schedules only,
-        # their bound-1 space is > 10^5 executions each), two preemptions for the 2-3 thread ones
+        # their bound-1 space is > 10^5 executions each), two preemptions for the two-thread ones (two reactors only;
+        # bound 2 with three threads is ~4*10^5 executions per configuration)
         jobs = [(c, 1 if nthreads(c) <= 4 else 0) for c in cfgs]
-        jobs += [(c, 2) for c in cfgs if nthreads(c) <= 3 and not c.get('spec_in_race')]
+        jobs += [(c, 2) for c in cfgs if nthreads(c) <= 2 and not c.get('spec_in_race')]
     else:
         # every configuration with all non-preemptive schedules (bound 0: every order in which the threads can run
         # to their next blocking point), three key configurations with one preemption anywhere
